@@ -232,6 +232,31 @@ fn gen_data(rng: &mut Sm64, n: usize, p: usize, fam: usize) -> Vec<Vec<f64>> {
     rows
 }
 
+/// quality of the external solver's own raw output (sigma, V^T) for the centred data, in f64 (used for
+/// classification only, never for a verdict): (orthonormality defect, Ritz defect / trace, eigen-residual / trace)
+fn solver_diag(x: &Array2<f64>, ss: &[f64], vt: &[Vec<f64>]) -> (f64, f64, f64) {
+    let mean = x.mean_axis(Axis(0)).unwrap();
+    let xc = x - &mean;
+    let a = xc.t().dot(&xc);
+    let p = a.nrows();
+    let tr: f64 = (0..p).map(|i| a[(i, i)]).sum::<f64>().max(1e-300);
+    let (mut orth, mut ritz, mut res) = (0.0f64, 0.0f64, 0.0f64);
+    for i in 0..vt.len() {
+        for j in 0..vt.len() {
+            let d: f64 = vt[i].iter().zip(&vt[j]).map(|(u, v)| u * v).sum();
+            orth = orth.max((d - if i == j { 1.0 } else { 0.0 }).abs());
+        }
+        let av: Vec<f64> = (0..p).map(|r| (0..p).map(|c| a[(r, c)] * vt[i][c]).sum()).collect();
+        let lam = ss[i] * ss[i];
+        let rq: f64 = av.iter().zip(&vt[i]).map(|(u, v)| u * v).sum();
+        ritz = ritz.max((rq - lam).abs() / tr);
+        for r in 0..p {
+            res = res.max((av[r] - lam * vt[i][r]).abs() / tr);
+        }
+    }
+    (orth, ritz, res)
+}
+
 fn f64_diag(x: &[Vec<f64>], f: &FitOut, n: usize) -> (f64, f64, f64) {
     // diagnostics for calibration only (never used for a verdict): orthonormality defect of the
     // un-whitened directions is not observable when whitened, so normalise rows first
@@ -353,6 +378,20 @@ fn main() {
                     out.bump(&format!("lobpcg_{}{}", status, if faithful { "" } else { "_unfaithful_replica" }));
                     if faithful && status != "ok" {
                         tags.push(format!("lobpcg_{}", status));
+                    }
+                    if let Ok((ss, vt)) = &svd {
+                        // known-finding classes are defined on the SOLVER's raw output, obtained by calling it
+                        // directly: thresholds are two orders below the oracle's, so that every oracle rejection
+                        // caused by the solver is tagged, and nothing pca.rs does can earn the tag
+                        let (so, sr, se) = solver_diag(&xa, ss, vt);
+                        if so > 1e-9 || sr > 1e-9 {
+                            tags.push("solver_block_not_orthonormal".into());
+                            out.bump("solver_block_not_orthonormal");
+                        }
+                        if se > 1e-9 {
+                            tags.push("solver_block_residual".into());
+                            out.bump("solver_block_residual");
+                        }
                     }
                     if let Ok((ss, _)) = &svd {
                         if ss.iter().any(|s| *s < 1e-8) {
